@@ -446,7 +446,7 @@ _ADDED6 = {
     "C02": "(Quiet, fake-time engine) the real StreamHandler between two in-memory duplex conns inside a testing/synctest bubble: scripts of client sends, target sends, either half-close and pauses of 1 ms..4 h (incl. 9.999/10/10.001 s, 59/59.001/60 s); after every step the target holds exactly the client's plaintext and the client decrypts exactly the target's bytes, and each side has seen end-of-stream iff the other half-closed. Non-trivial (Quiet) = a pause of >=10 s while exactly one direction is closed. ",
     "C12": "(AcceptFault) a unit of its own (fresh process per shard): with 1..4 handles accepting, 1..4 client sockets created beforehand connect while RLIMIT_NOFILE is lowered to 1, so that the shared accept fails with EMFILE for 1..20 ms with connections waiting in the backlog; after the limit is restored every waiting connection and 0..3 later ones are delivered exactly once and no handle that nobody closed reports a closed listener; 1..3 rounds. Non-trivial (AcceptFault) = the handles really saw accept errors. ",
     "C14": "(Lifecycle) script otherkey: after each datagram of a live association the same client socket sends one under the other configured key; the association's lower and upper bounds stand and at shutdown every association ever reported is removed exactly once with no goroutine or socket left. ",
-    "C15": "(Mem) the real StreamHandler on an in-memory client conn that returns at most 1..70000 bytes per Read and, in half of the cases, its last bytes together with io.EOF; valid streams (0..50000 bytes each way, status OK, all four counters equal to what the conns carried) and random streams of 0..20000 bytes (probe report and client->proxy counter equal to the stream's length). Non-trivial (Mem) = last bytes with io.EOF or reads shorter than 51 bytes. ",
+    "C15": "(Mem) the real StreamHandler on an in-memory client conn that returns at most 1..70000 bytes per Read and, in half of the cases, its last bytes together with io.EOF; valid streams (0..50000 bytes each way, status OK, all four counters equal to what the conns carried) and random streams of 0..20000 bytes (probe report and client->proxy counter equal to the stream's length); the target's conn likewise returns at most 1..40000 bytes per Read and may deliver its last bytes with io.EOF, and the client must be able to decrypt the target's whole stream. Non-trivial (Mem) = last bytes with io.EOF or reads shorter than 51 bytes. ",
     "C16": "(worlds) a reply too large to be relayed is reported with a status other than OK and with 0 bytes sent to the client. ",
     "C17": "(Ledger) num_ids (a quarter of the cases): the keys are called 23, 3 and 1 and the clients are 20.0.0.1, 20.0.0.12 (and 20.0.0.123), so that address and id of different clients read alike when joined. (E2E, fake-time engine) 1..8 successive connections through the real StreamHandler (replay history 0/5/100) reporting to the real collector: valid, random, a replay of an accepted handshake, the server's own response stream sent back; the client stays 0 ms..1 h; tunnel_time_seconds per key must equal the time authenticated connections of that key were open (refused connections held open contribute nothing). Non-trivial (E2E) = a connection that does not authenticate is held for >=1 s. ",
     "C18": "(ServeStop) handlers of generated connections fail (panic) instead of returning; once StreamServe has returned every client must see its connection end within 3 s (the server-side conns stay referenced by the test, so no finalizer closes a forgotten socket). ",
